@@ -284,8 +284,7 @@ class Ref:
                 (_, zp) = self.quant(ins[0])
                 val[outs[0]] = np.pad(val[ins[0]], [(int(a), int(b2)) for a, b2 in pads.reshape(-1, 2)], constant_values=zp[0])
             elif k in ("SQUEEZE", "EXPAND_DIMS"):
-                if self.quant(ins[0]) != self.quant(outs[0]):
-                    raise Unsupported("requantising " + k)
+                # (the kernels copy the bytes whatever the two quantisation records say, like RESHAPE)
                 val[outs[0]] = val[ins[0]].reshape(self.tens(outs[0])["shape"])
             elif k == "RESHAPE":
                 val[outs[0]] = val[ins[0]].reshape(self.tens(outs[0])["shape"])
